@@ -194,6 +194,72 @@ def post_winding(C):
             ('same-three-nodes', z3.And(*[z3.Or(*[x == y for y in b0]) for x in b]))]
 
 
+# ---- longest axis: the matrix handed to the eigen-solver is the covariance of the live nodes about the centroid -------------
+PAIRS = [('xx', 0, 0), ('xy', 0, 1), ('xz', 0, 2), ('yy', 1, 1), ('yz', 1, 2), ('zz', 2, 2)]
+
+
+def cov_sum(e, nm):
+    return e.uf('ghost.cov_sum_' + nm, I, R)
+
+
+def node_at(view, this, k):
+    return view.elem(view.sub(this, 'cell.node_lst_'), k)
+
+
+def pre_axis(C):
+    o = C.old
+    out = []
+    c = [z3.Real('ghost.centroid_' + a) for a in 'xyz']
+    for nm, a, b in PAIRS:
+        S = cov_sum(C.e, nm)
+        def term(k, a=a, b=b):
+            p = o.v3(node_at(o, C.this, k), 'node.pos_').comps()
+            return z3.If(o.f(node_at(o, C.this, k), 'node.is_used_'), (p[a] - c[a]) * (p[b] - c[b]), 0)
+        out.append(('cov-sum-%s-0' % nm, S(0) == 0))
+        out.append(('cov-sum-%s-step' % nm, QForall(lambda k, S=S, term=term: z3.Implies(k >= 0, S(k + 1) == S(k) + term(k)), 1, 'partial sums of the second moments about the centroid')))
+    return out
+
+
+def centroid_ret(C, st):
+    from values import Rec
+    c = [z3.Real('ghost.centroid_' + a) for a in 'xyz']
+    return Rec('vec3', {'dx_': c[0], 'dy_': c[1], 'dz_': c[2]})
+
+
+def inv_axis(L):
+    i = L.index
+    n = L.cur.len(L.container.ref)
+    out = [('index-in-range', z3.And(i >= 0, i <= n))]
+    for nm, a, b in PAIRS:
+        out.append(('partial-sum-' + nm, L.var('cov_' + nm) == cov_sum(L.e, nm)(i)))
+    return out
+
+
+def record_matrix(C, st):
+    m = C.e.load(st, C.this) if not hasattr(C.this, 'f') else C.this
+    st.ghost['eigen_input'] = m
+
+
+def eigen_ret(C, st):
+    import ty
+    return C.e.fresh_value(ty.parse('std::pair<vec3, mat33>'), 'eigen')
+
+
+def post_axis(C):
+    o = C.old
+    g = C.post_state.ghost
+    if 'eigen_input' not in g: return [('covariance-matrix-is-decomposed', z3.BoolVal(False))]
+    m = g['eigen_input']
+    rows = [m.f['row_1_'], m.f['row_2_'], m.f['row_3_']]
+    N = z3.ToReal(o.len(o.sub(C.this, 'cell.node_lst_')) - o.len(o.sub(C.this, 'cell.free_node_queue_')))
+    n = o.len(o.sub(C.this, 'cell.node_lst_'))
+    out = []
+    for nm, a, b in PAIRS:
+        S = cov_sum(C.e, nm)
+        out.append(('matrix-entry-%s-is-the-covariance-about-the-centroid' % nm, z3.And(rows[a].f[str(b)] == S(n) / N, rows[b].f[str(a)] == S(n) / N)))
+    return out
+
+
 def build(reg):
     reg.add(Contract('cell::update_face_normal_and_area', PROP, signature='(face &)', pre=pre_face_update, post=post_face_update, safety={'bounds'},
                      assigns=['face.area_', 'face.normal_.dx_', 'face.normal_.dy_', 'face.normal_.dz_'], name='cell::update_face_normal_and_area(face&)'))
@@ -205,5 +271,27 @@ def build(reg):
                      name='cell::compute_centroid::<per-face body>'))
     reg.add(Contract('cell::get_aabb', PROP, post=post_aabb_body, slice_loop=0, assigns=[], name='cell::get_aabb::<per-node body>'))
     reg.add(Contract('cell::get_aabb', PROP, post=post_aabb_prologue, prefix_loop=0, assigns=[], name='cell::get_aabb::<prologue>'))
+    reg.add_loop(LoopContract('cell::get_cell_longest_axis', 0, inv_axis, modifies=[]))
+    reg.add(Contract('cell::get_cell_longest_axis', PROP, pre=pre_axis, post=post_axis, assigns=[], use=[
+        Contract('cell::compute_centroid', PROP, frame=lambda C: [], ret_model=centroid_ret, assumed=True, name='cell::compute_centroid (value named by a ghost symbol)'),
+        Contract('mat33::eigen_decomposition', PROP, frame=lambda C: [], on_call=record_matrix, ret_model=eigen_ret, name='mat33::eigen_decomposition (not under contract: any result)')]))
     reg.add(Contract('cell::check_face_winding_order', PROP, pre=pre_winding, post=post_winding,
                      assigns=['face.n1_id_', 'face.n2_id_', 'face.n3_id_', 'vec.len', 'vec.data.int', 'vec.epoch']))
+
+
+EXPLANATION = ("Contracts on the geometric queries: update_face_normal_and_area establishes the face-cache invariant (area >= 0, (2 area)^2 = |cr|^2, "
+               "normal*(2 area) = cr, unit normal on the side given by the winding, zero normal for a degenerate face) and writes nothing else; "
+               "compute_volume: loop contract against the ghost partial sums S(k) of x1.(x2 x x3) over the used faces, result |S(n)|/6 >= 0 (the "
+               "six-term expression in the code equals the triple product); compute_area: std::accumulate under a loop contract, result = sum of "
+               "the used faces' cached areas; compute_centroid (arbitrary iteration): a used face adds area*(x1+x2+x3)/3, an unused one nothing; "
+               "get_aabb: the box starts empty (beyond +-DBL_MAX) and an arbitrary iteration tightens it with a live node and ignores dead slots; "
+               "get_cell_longest_axis: the matrix handed to the eigen-solver is the covariance of the live nodes about the centroid (loop contract "
+               "on six ghost sums, eigen-solver itself treated as 'any result'); check_face_winding_order: if two faces share exactly one edge, "
+               "afterwards that edge is traversed in opposite directions, the reference face is untouched, the node set of the face is kept.")
+ASSUMPTIONS = ["exact reals; numeric_limits<double>::infinity() modelled as a real constant above DBL_MAX (coordinates are finite doubles)",
+               "node ids of the faces are in range (C01)",
+               "'equals the enclosed volume' and translation/rotation invariance of volume and centroid need the closed-surface lemma (divergence theorem) and are not machine-checked; area is a sum of per-face quantities that depend only on differences of positions",
+               "independence of element order: the results are finite sums / min / max over the set of used elements (stated through the partial-sum ghost functions); permutation invariance of a finite sum is arithmetic, not code"]
+UNVERIFIED = ["check_face_normal_orientation: the flood fill over the surface (std::list work queue) and the final sign-flip block are not under contract",
+              "the eigen-solver (include/math_modules/eigen_solver.hpp, mat33::eigen_decomposition) and the choice of the column of the largest eigenvalue",
+              "scaling laws (volume ~ s^3, area ~ s^2) follow from the homogeneity of the per-face expressions; not separate obligations"]
